@@ -186,7 +186,7 @@ def _exec_s3(record: dict, ch: Chooser, log: Digest) -> Outcome:
         "scenario_inproc": int(scen == "inproc"),
         "scenario_cluster": int(scen == "cluster"),
     }
-    S._state.clear()
+    getattr(S, "_state", {}).clear()
     fakes.install_fake_s3(s3)
     fakes.install_distributed_fakes(cluster)
     K.activate(kernel)
@@ -287,11 +287,11 @@ def _exec_s3(record: dict, ch: Chooser, log: Digest) -> Outcome:
         K.activate(None)
         fakes.uninstall_distributed_fakes()
         fakes.uninstall_fake_s3()
-        lk = S._state.get("mpu_lock")
+        lk = getattr(S, "_state", {}).get("mpu_lock")
         if isinstance(lk, K.CoopLock):
             probes["lock_contended_inproc"] = int(lk.contended > 0)
             probes["two_threads_passed_unlocked_check"] = int(lk.acquisitions >= 2)
-        S._state.clear()
+        getattr(S, "_state", {}).clear()
     for k_, c in cluster.counters.items():
         if k_ in probes:
             probes[k_] = c
